@@ -863,8 +863,11 @@ def formula_grammar(table):
         return formula
     grouped_mixture = grouped_mixture.setParseAction(convert_mixture)
 
-    mixture << (compound | grouped_mixture)
-    formula = (compound | ungrouped_mixture | grouped_mixture)
+    # Note: try the mixture forms first.  A quantity such as "3L" starts like
+    # a compound, but the unknown element "L" is raised as a ValueError from
+    # the parse action rather than causing the parser to try the alternatives.
+    mixture << (grouped_mixture | compound)
+    formula = (ungrouped_mixture | grouped_mixture | compound)
     grammar = Optional(formula, default=Formula()) + StringEnd()
 
     grammar.setName('Chemical Formula')
